@@ -50,15 +50,17 @@ def aesthetics(flux, invvar, method='traditional'):
             l = 250  # damping length in pixels
             goodpts = invvar.nonzero()[0]
             nflux = flux.size
+            newflux = djs_maskinterp(flux, invvar == 0, const=True)
+            if goodpts.size == 0:
+                return newflux
             mingood = goodpts.min()
             maxgood = goodpts.max()
-            newflux = djs_maskinterp(flux, invvar == 0, const=True)
             pixels = np.arange(nflux, dtype='f')
             if mingood > 0:
                 damp1 = float(min(mingood, l))
                 newflux *= 0.5*(1.0+erf((pixels-mingood)/damp1))
             if maxgood < (nflux - 1):
-                damp2 = float(min(maxgood, l))
+                damp2 = float(max(min(maxgood, l), 1))
                 newflux *= 0.5*(1.0+erf((maxgood-pixels)/damp2))
         elif method == 'nothing':
             newflux = flux.copy()
